@@ -45,17 +45,19 @@ theorem C30_chunk_roundtrip (msg rest : Bytes) (hsize : msg.length < 2 ^ 64) :
   have hraw : packChunk msg ++ rest = toHex msg.length ++ 13 :: 10 :: (msg ++ 13 :: 10 :: rest) := by
     simp [packChunk, crlf]
   unfold parseChunk
-  rw [hraw, parseLine_crlf true _ _ h13 hlen]
-  simp only [partitionN_not_mem 59 _ h59, pyIntHex_toHex]
+  rw [hraw, parseLine_crlf true _ _ h13 (by simp) hlen]
+  have hex0 : parseExts [] = [] := by simp [parseExts]
+  simp only [partitionN_not_mem 59 _ h59, pyIntHex_toHex, hex0]
   by_cases h0 : msg.length = 0
   · have hm : msg = [] := List.length_eq_zero_iff.1 h0
     subst hm
-    simp [parseLeader, parseLeaderAux, parseLine, splitCRLF, MAX_LINE_SIZE, MAX_HEADERS]
+    simp [parseLeader, parseLeaderAux, leaderLine, lineRes, splitCRLF, MAX_LINE_SIZE, MAX_HEADERS]
   · have hdrop : (msg ++ 13 :: 10 :: rest).drop msg.length = 13 :: 10 :: rest := by simp
     have htake : (msg ++ 13 :: 10 :: rest).take msg.length = msg := by simp
     have hpl : parseLine true (13 :: 10 :: rest) = .done [] rest := by
-      simpa using parseLine_crlf true [] rest (by simp) (by simp [MAX_LINE_SIZE])
-    simp [h0, hdrop, htake, hpl]
+      simpa using parseLine_crlf true [] rest (by simp) (by simp) (by simp [MAX_LINE_SIZE])
+    have hl : ¬ (msg.length + (rest.length + 1 + 1) < msg.length) := by omega
+    simp [h0, hdrop, htake, hpl, hl]
 
 /-- non-vacuity: a three byte message and what follows it -/
 example : parseChunk (packChunk [104, 105, 33] ++ [48, 13, 10, 13, 10]) = .done ⟨3, [], [], [104, 105, 33]⟩ [48, 13, 10, 13, 10] :=
@@ -125,8 +127,8 @@ theorem headerBlock_length (hs : List (Str × Str)) : hs.length ≤ (headerBlock
     omega
 
 /-- **C30, header round trip** (every block of at most 100 headers): the lines `packHeader` writes for names
-that are ASCII without `:`/CR/LF and Latin-1 values without CR/LF — in any letter case, with blanks, colons and
-commas inside the values — are read back by `parseLeader` as the dict `lower(name) ↦ value` (later duplicates
+that are ASCII without `:`/CR/LF and Latin-1 values without CR/LF and without a blank at either end — in any
+letter case, with blanks, colons and commas inside the values — are read back by `parseLeader` as the dict `lower(name) ↦ value` (later duplicates
 win, first position kept), and the bytes after the empty line are left untouched. -/
 theorem C30_header_roundtrip (hs : List (Str × Str)) (rest : Bytes)
     (hgood : ∀ kv ∈ hs, GoodName kv.1 ∧ GoodValue kv.2 ∧ (headerLine kv.1 kv.2).length ≤ MAX_LINE_SIZE)
@@ -143,7 +145,7 @@ theorem C30_header_roundtrip (hs : List (Str × Str)) (rest : Bytes)
   omega
 
 /-- non-vacuity: mixed case names, a value with blanks and ": " inside, a duplicate -/
-example : parseLeader (headerBlock [("x-THING".toList, " a: b ".toList), ("Accept".toList, "é".toList),
+example : parseLeader (headerBlock [("x-THING".toList, "a: b".toList), ("Accept".toList, "é".toList),
       ("X-Thing".toList, "2".toList)] ++ crlf ++ [1, 2])
     = .done [("x-thing".toList, "2".toList), ("accept".toList, "é".toList)] [1, 2] := by decide +kernel
 
@@ -189,7 +191,18 @@ theorem C30_request_wire_roundtrip (S : Std) (method target : Str) (hs : List (S
     cases h : line.map Char.toNat with
     | nil => simp at h; exact absurd h this
     | cons _ _ => rfl
-  have hpl := parseLine_crlf false (line.map Char.toNat) (headerBlock hs ++ crlf ++ (body ++ rest)) h13 (by rw [List.length_map]; exact hline)
+  have h10 : 10 ∉ line.map Char.toNat := by
+    intro h
+    obtain ⟨c, hc, e⟩ := List.mem_map.1 h
+    simp only [line, List.mem_append, List.mem_cons] at hc
+    rcases hc with hc | rfl | hc | rfl | hc
+    · have := hmv.2 c hc; omega
+    · simp at e
+    · have := ht.2 c hc; omega
+    · simp at e
+    · have := hver.2 c hc; omega
+  have hpl := parseLine_crlf false (line.map Char.toNat) (headerBlock hs ++ crlf ++ (body ++ rest)) h13 (fun _ => h10)
+    (by rw [List.length_map]; exact hline)
   have hsplit : splitWs line = [method, target, "HTTP/1.1".toList] :=
     splitWs_three _ _ _ (visible_nospace hmv) (visible_nospace ht) (visible_nospace hver) hmv.1 ht.1 hver.1
   have hprl : parseRequestLine (line.map Char.toNat) = .ok (method, target, "HTTP/1.1".toList) := by
@@ -221,5 +234,136 @@ theorem C30_request_wire_roundtrip (S : Std) (method target : Str) (hs : List (S
     simp only [hne', Bool.false_eq_true, if_false, hlt, htake, hdrop]
     exact ⟨_, rfl, rfl, rfl, rfl, rfl, rfl, rfl, rfl, rfl⟩
 
+
+/-! ## responses -/
+
+/-- the parsed headers of a block -/
+def dictOf (hs : List (Str × Str)) : List (Str × Str) := hs.foldl (fun d kv => loSet d kv.1 kv.2) []
+
+theorem parseResponse_head (closed : Bool) (code : Nat) (reasonWords : List Str)
+    (hs : List (Str × Str)) (X : Bytes)
+    (hw : ∀ w ∈ reasonWords, Visible w) (hc : 100 ≤ code ∧ code ≤ 999) (h100 : code ≠ 100)
+    (hlen : (statusText code reasonWords).length ≤ MAX_LINE_SIZE)
+    (hgood : ∀ kv ∈ hs, GoodName kv.1 ∧ GoodValue kv.2 ∧ (headerLine kv.1 kv.2).length ≤ MAX_LINE_SIZE)
+    (hcount : hs.length ≤ MAX_HEADERS) :
+    (responseHead code reasonWords hs ++ X).isEmpty = false
+    ∧ parseStatus ((responseHead code reasonWords hs ++ X).length + 1) closed (responseHead code reasonWords hs ++ X)
+        = .done ("HTTP/1.1".toList, code, joinStr [' '] reasonWords) (headerBlock hs ++ crlf ++ X)
+    ∧ parseLeader (headerBlock hs ++ crlf ++ X) = .done (dictOf hs) X := by
+  have hraw : responseHead code reasonWords hs ++ X
+      = (statusText code reasonWords).map Char.toNat ++ 13 :: 10 :: (headerBlock hs ++ crlf ++ X) := by
+    simp [responseHead, crlf]
+  refine ⟨?_, ?_, (C30_header_roundtrip hs X hgood hcount).2⟩
+  · rw [hraw]
+    have := joinStr_ne_nil "HTTP/1.1".toList (natStr code :: reasonWords) (by decide)
+    cases h : (statusText code reasonWords).map Char.toNat with
+    | nil => simp [statusText] at h; exact absurd h this
+    | cons _ _ => rfl
+  · rw [hraw]
+    exact parseStatus_head _ closed code reasonWords _ hw hc h100 hlen
+
+/-- what the three framing theorems conclude about the parsed response -/
+def Parsed (q : Response) (code : Nat) (reasonWords : List Str) (hs : List (Str × Str)) (body : Bytes) : Prop :=
+  q.version = (1, 1) ∧ q.status = code ∧ q.reason = joinStr [' '] reasonWords ∧ q.headers = dictOf hs ∧ q.body = body
+
+theorem version_11 : (if "HTTP/1.1".toList = "HTTP/1.0".toList ∨ "HTTP/1.1".toList = "HTTP/0.9".toList then some ((1 : Nat), (0 : Nat))
+      else if startsWith "HTTP/1.".toList "HTTP/1.1".toList = true then some (1, 1) else none) = some (1, 1) := by decide
+
+/-- **C30, response framed by Content-Length**: status line `HTTP/1.1 code reason…`, well-formed header lines with
+`Content-Length` = length of the body (no `Transfer-Encoding`), empty line, body — parsed by `Respondent` into the same
+status, reason, headers and body, whether or not the connection is closed afterwards; the next response's bytes are
+left untouched. -/
+theorem C30_response_wire_length (method : Str) (closed : Bool) (code : Nat) (reasonWords : List Str)
+    (hs : List (Str × Str)) (body rest : Bytes)
+    (hw : ∀ w ∈ reasonWords, Visible w) (hc : 200 ≤ code ∧ code ≤ 999) (hbodied : code ≠ 204 ∧ code ≠ 304)
+    (hmethod : method ≠ "HEAD".toList)
+    (hlen : (statusText code reasonWords).length ≤ MAX_LINE_SIZE)
+    (hgood : ∀ kv ∈ hs, GoodName kv.1 ∧ GoodValue kv.2 ∧ (headerLine kv.1 kv.2).length ≤ MAX_LINE_SIZE)
+    (hcount : hs.length ≤ MAX_HEADERS)
+    (hte : odGet (dictOf hs) "transfer-encoding".toList = none)
+    (hcl : odGet (dictOf hs) "content-length".toList = some (natStr body.length))
+    (hev : isEventStream (dictOf hs) = false) :
+    ∃ q, parseResponse method closed (responseHead code reasonWords hs ++ (body ++ rest)) = .done q rest
+      ∧ Parsed q code reasonWords hs body ∧ q.chunked = false := by
+  obtain ⟨hne, hst, hld⟩ := parseResponse_head closed code reasonWords hs (body ++ rest) hw ⟨by omega, hc.2⟩ (by omega)
+    hlen hgood hcount
+  have hlt : ¬ (body ++ rest).length < body.length := by simp
+  have htake : (body ++ rest).take body.length = body := by simp
+  have hdrop : (body ++ rest).drop body.length = rest := by simp
+  have hs1 : ¬ (code = 204 ∨ code = 304 ∨ (100 ≤ code ∧ code < 200) ∨ method = "HEAD".toList) := by
+    intro h; rcases h with h | h | h | h <;> first | omega | exact hmethod h
+  unfold parseResponse
+  simp only [hne, Bool.false_eq_true, if_false, hst, version_11, hld, hte, hcl, contentLength_natStr, hev, hs1,
+    hlt, htake, hdrop]
+  exact ⟨_, rfl, ⟨rfl, rfl, by simp [stripC_join _ hw], rfl, rfl⟩, rfl⟩
+
+/-- **C30, chunked response**: the same head with `Transfer-Encoding: chunked` followed by the chunks the responder
+writes (one per piece, then the empty chunk) is parsed into the concatenation of the pieces. -/
+theorem C30_response_wire_chunked (method : Str) (code : Nat) (reasonWords : List Str)
+    (hs : List (Str × Str)) (pieces : List Bytes) (rest : Bytes) (te : Str)
+    (hw : ∀ w ∈ reasonWords, Visible w) (hc : 200 ≤ code ∧ code ≤ 999)
+    (hlen : (statusText code reasonWords).length ≤ MAX_LINE_SIZE)
+    (hgood : ∀ kv ∈ hs, GoodName kv.1 ∧ GoodValue kv.2 ∧ (headerLine kv.1 kv.2).length ≤ MAX_LINE_SIZE)
+    (hcount : hs.length ≤ MAX_HEADERS)
+    (hte : odGet (dictOf hs) "transfer-encoding".toList = some te) (hte' : lower te = "chunked".toList)
+    (hclok : ∃ cl, contentLength (odGet (dictOf hs) "content-length".toList) = .ok cl)
+    (hev : isEventStream (dictOf hs) = false)
+    (hp : ∀ p ∈ pieces, p ≠ [] ∧ p.length < 2 ^ 64) :
+    ∃ q, parseResponse method false (responseHead code reasonWords hs ++ (chunkedBody pieces ++ rest)) = .done q rest
+      ∧ Parsed q code reasonWords hs pieces.flatten ∧ q.chunked = true := by
+  obtain ⟨hne, hst, hld⟩ := parseResponse_head false code reasonWords hs (chunkedBody pieces ++ rest) hw
+    ⟨by omega, hc.2⟩ (by omega) hlen hgood hcount
+  obtain ⟨cl, hcl⟩ := hclok
+  have hch := C30_chunked_body_roundtrip pieces rest hp
+  unfold parseResponse
+  simp only [hne, Bool.false_eq_true, if_false, hst, version_11, hld, hte, hte', hcl, hev, decide_true, if_true, hch]
+  exact ⟨_, rfl, ⟨rfl, rfl, by simp [stripC_join _ hw], rfl, rfl⟩, rfl⟩
+
+/-- **C30, response streamed without a length**: with neither `Content-Length` nor chunking the body is everything
+up to the close of the connection: complete once closed, `need` (never complete) while the connection stays open —
+which is why such a response cannot be followed by another one (C31). -/
+theorem C30_response_wire_until_close (method : Str) (code : Nat) (reasonWords : List Str)
+    (hs : List (Str × Str)) (body : Bytes)
+    (hw : ∀ w ∈ reasonWords, Visible w) (hc : 200 ≤ code ∧ code ≤ 999) (hbodied : code ≠ 204 ∧ code ≠ 304)
+    (hmethod : method ≠ "HEAD".toList)
+    (hlen : (statusText code reasonWords).length ≤ MAX_LINE_SIZE)
+    (hgood : ∀ kv ∈ hs, GoodName kv.1 ∧ GoodValue kv.2 ∧ (headerLine kv.1 kv.2).length ≤ MAX_LINE_SIZE)
+    (hcount : hs.length ≤ MAX_HEADERS)
+    (hte : odGet (dictOf hs) "transfer-encoding".toList = none)
+    (hcl : odGet (dictOf hs) "content-length".toList = none)
+    (hev : isEventStream (dictOf hs) = false) :
+    (∃ q, parseResponse method true (responseHead code reasonWords hs ++ body) = .done q []
+      ∧ Parsed q code reasonWords hs body ∧ q.chunked = false)
+    ∧ parseResponse method false (responseHead code reasonWords hs ++ body) = .need := by
+  have hs1 : ¬ (code = 204 ∨ code = 304 ∨ (100 ≤ code ∧ code < 200) ∨ method = "HEAD".toList) := by
+    intro h; rcases h with h | h | h | h <;> first | omega | exact hmethod h
+  constructor
+  · obtain ⟨hne, hst, hld⟩ := parseResponse_head true code reasonWords hs body hw ⟨by omega, hc.2⟩ (by omega)
+      hlen hgood hcount
+    unfold parseResponse
+    simp only [hne, Bool.false_eq_true, if_false, hst, version_11, hld, hte, hcl, contentLength, hev, hs1, if_true]
+    exact ⟨_, rfl, ⟨rfl, rfl, by simp [stripC_join _ hw], rfl, rfl⟩, rfl⟩
+  · obtain ⟨hne, hst, hld⟩ := parseResponse_head false code reasonWords hs body hw ⟨by omega, hc.2⟩ (by omega)
+      hlen hgood hcount
+    unfold parseResponse
+    simp only [hne, Bool.false_eq_true, if_false, hst, version_11, hld, hte, hcl, contentLength, hev, hs1]
+
+
+/-- non-vacuity of the three framing theorems: one concrete head, bodies `hi!` -/
+example : ∃ q, parseResponse "GET".toList false
+      (responseHead 404 ["Not".toList, "Found".toList] [("Content-Length".toList, "3".toList), ("X-a".toList, "v: 1".toList)]
+        ++ ([104, 105, 33] ++ [72])) = .done q [72]
+    ∧ Parsed q 404 ["Not".toList, "Found".toList] [("Content-Length".toList, "3".toList), ("X-a".toList, "v: 1".toList)] [104, 105, 33]
+    ∧ q.chunked = false :=
+  C30_response_wire_length _ false 404 _ _ [104, 105, 33] [72] (by decide +kernel) (by decide +kernel) (by decide +kernel) (by decide +kernel) (by decide +kernel)
+    (by decide +kernel) (by decide +kernel) (by decide +kernel) (by decide +kernel) (by decide +kernel)
+
+example : ∃ q, parseResponse "GET".toList false
+      (responseHead 200 ["OK".toList] [("transfer-ENCODING".toList, "Chunked".toList)]
+        ++ (chunkedBody [[104, 105], [33]] ++ [72])) = .done q [72]
+    ∧ Parsed q 200 ["OK".toList] [("transfer-ENCODING".toList, "Chunked".toList)] [[104, 105], [33]].flatten
+    ∧ q.chunked = true :=
+  C30_response_wire_chunked _ 200 _ _ [[104, 105], [33]] [72] "Chunked".toList (by decide +kernel) (by decide +kernel) (by decide +kernel) (by decide +kernel)
+    (by decide +kernel) (by decide +kernel) (by decide +kernel) ⟨none, by decide +kernel⟩ (by decide +kernel) (by decide +kernel)
 
 end Ioflo.HttpCodec
